@@ -287,6 +287,29 @@ def slice_let(src, it, name, nth=0, count=None):
     return squash(body[mm.end():j], mbody[mm.end():j])
 
 
+def slice_field(src, it, name, nth=0, count=None):
+    """Initialiser expression text of the nth `<name>: <expr>` field of a struct literal inside item
+    `it` (whitespace collapsed).  The expression ends at the `,` or closing brace of the literal."""
+    body = src[it.body_open + 1:it.body_close]
+    mbody = mask(body)
+    mms = [m for m in re.finditer(r"(?<![\w:])%s\s*:(?!:)\s*" % re.escape(name), mbody)]
+    if count is not None and len(mms) != count:
+        raise ScanError("expected %d `%s:` fields, found %d" % (count, name, len(mms)))
+    if len(mms) <= nth:
+        raise ScanError("field `%s:` #%d not found" % (name, nth))
+    mm = mms[nth]
+    j = mm.end()
+    depth = 0
+    while j < len(mbody):
+        ch = mbody[j]
+        if depth == 0 and ch in ",}":
+            break
+        depth += ch in "([{"
+        depth -= ch in ")]}"
+        j += 1
+    return squash(body[mm.end():j], mbody[mm.end():j])
+
+
 def squash(text, masked):
     """text with comments removed (located through the masked copy) and whitespace collapsed"""
     out = []
